@@ -395,7 +395,15 @@ impl Property for C10 {
         };
         let sequential = src.chance(64);
         // 1.5% of concurrent programs run on a large vector (the library imposes no limit on the number of children)
-        let bulk = if !sequential && src.chance(4) { [1000, 4097][src.below(2)] + src.below(300) } else { 0 };
+        // (... and on vectors that are within a few children of 224 or 448: a std HashMap of that many entries is exactly full, the next
+        // insertion re-allocates the table)
+        let bulk = if !sequential && src.chance(4) {
+            [1000, 4097][src.below(2)] + src.below(300)
+        } else if !sequential && src.chance(36) {
+            [222, 446][src.below(2)] + src.below(3)
+        } else {
+            0
+        };
         let sys = Sys { v, names: names.clone(), handles: Arc::new(Mutex::new(HashMap::new())), bulk };
         for k in 0..bulk {
             let mut t: Tuple = vec![format!("{}{}", BG, k)];
@@ -403,7 +411,13 @@ impl Property for C10 {
             sys.get(&t, false).expect("background child");
         }
         if bulk > 0 {
-            rep.class(if bulk > 4000 { "large-vector(4097+ untouched background children)" } else { "large-vector(1000+ untouched background children)" });
+            rep.class(if bulk > 4000 {
+                "large-vector(4097+ untouched background children)"
+            } else if bulk >= 1000 {
+                "large-vector(1000+ untouched background children)"
+            } else {
+                "vector-at-a-table-growth-boundary(222-224 / 446-448 background children)"
+            });
         }
         let nthreads = if sequential { 1 } else { 2 + src.below(2) };
         let mut prog: Vec<Vec<VOp>> = vec![];
